@@ -35,6 +35,38 @@ claim("C19", "exploration",
       "deterministic simulation + seeded schedule/fault search, reference-model oracle", "DESIGN.md 4 C19")
 
 
+claim("C01", "exploration",
+      "Seeded generation of legal acyclic RTL designs (hierarchy, structs, lists, slices, nets, lambdas, loops); each "
+      "is simulated under 4 of 13 schedulers (the five real pass groups, the same passes fed their DAG metadata in a "
+      "seeded order, and harness-chosen random / adversarial linear extensions of the pass-computed partial order, "
+      "with permuted flip-flop blocks) with seeded inputs and faults (input glitches, duplicate evaluations, "
+      "re-invocation of single blocks, mid-run resets, seeded object-hash order). After every evaluation and tick "
+      "every signal of every component is compared with an independent integer reference evaluator that computes "
+      "the unique solution of the dataflow equations by chaotic iteration. Sampling, not proof.",
+      "Trusts the generator's legality rules (DESIGN.md Appendix C) and the ~350-line reference evaluator; forced "
+      "extensions are linear extensions of the constraint set GenDAGPass produced (a missing constraint is exactly "
+      "what they expose).",
+      "deterministic simulation, seeded schedule/fault search, reference-model oracle", "DESIGN.md 4 C01")
+claim("C02", "exploration",
+      "A sys.setprofile recorder logs the exact order in which update blocks and net-propagation steps run inside "
+      "an evaluation under every scheduler. Checked per evaluation: every block exactly once; for every pair (A,B) "
+      "whose written/read bit sets (computed by an independent static analysis of the generated spec, followed "
+      "through nets) overlap, A before B; the values a block saw at call time equal the values at the end of the "
+      "pass; explicit U<U, RD(x)<U, WR(x)>U constraints incl. inversions are honoured on template designs; "
+      "signal-free constraint cycles raise UpblkCyclicError in every scheduler.",
+      "Read/write sets are over-approximated (both branches, variable index = whole signal); method (M) constraints "
+      "and the open-loop scheduler are exercised only through C17's CL queue harness, not here.",
+      "deterministic simulation with schedule recording, history check over block order", "DESIGN.md 4 C02")
+claim("C07", "exploration",
+      "ff_ring templates (swap rings, reversed shift chains, holds, overwritten assignments, struct and list "
+      "registers, registers behind nets) and ff_heavy generated designs under 3 of 13 schedulers with seeded "
+      "permutations of the update_ff blocks, resets and glitches. Oracle: state after each tick equals the reference "
+      "F(pre-edge state, inputs); a monitor firing on entry of the generated flip function sees every signal still at "
+      "its pre-edge value.",
+      "The flip monitor keys on the generated function name double_buffer/no_double_buffer.",
+      "deterministic simulation, seeded ff-block permutation, reference-model oracle + pre-flip invariant", "DESIGN.md 4 C07")
+
+
 def main():
   props = [json.loads(l)["id"] for l in open(os.path.join(VERIF, "properties.jsonl"))]
   checks = []
